@@ -47,3 +47,28 @@ func VerifH_C03_postprocessor_stop() {
 	Stop() // a hang is reported by the engine as a deadlock
 	verifrt.Cover("stopped")
 }
+
+// VerifH_C17_postprocessor_gauge: the worker gauge of this stage equals the number of live workers and is zero after stop,
+// on every exit path of the worker loop (stopped idle or while paused) and for every interleaving.
+func VerifH_C17_postprocessor_gauge() {
+	_ = stats.Init()
+	n := 1 + verifrt.Choice("workers-1", 2)
+	config.VerifSet(&config.Config{WorkersCount: n})
+	in := make(chan *models.Item, 1)
+	out := make(chan *models.Item, 1)
+	before := c17Gauge()
+	err := Start(in, out)
+	verifrt.Assert(err == nil, "C17 stage starts")
+	verifrt.Quiesce()
+	verifrt.Assert(c17Gauge() == before+uint64(n), "C17 worker gauge equals the number of live workers")
+	if verifrt.Choice("pause", 2) == 1 {
+		pause.Pause("verif")
+		verifrt.Settle()
+		verifrt.Cover("stopped-while-paused")
+	}
+	Stop()
+	verifrt.Cover("stopped")
+	verifrt.Assert(c17Gauge() == before, "C17 worker gauge is back to zero after stop")
+}
+
+func c17Gauge() uint64 { return stats.PostprocessorRoutinesGet() }
